@@ -523,6 +523,20 @@ Proof.
     apply Z.ltb_ge in A1, A2, B1, B2. unfold bounds. tauto.
 Qed.
 
+Lemma parse_descs_ok_types fs n : forall buf ds, parse_descs fs n buf = Ok ds -> Forall (fun d => d_type d < kas_num_types) ds.
+Proof.
+  induction n; intros buf ds; cbn [parse_descs].
+  - intros H. inversion H. constructor.
+  - set (d := parse_desc (firstn 64 buf)).
+    destruct (kas_num_types <=? d_type d) eqn:E0; [discriminate|].
+    destruct ((fs <? d_kl d) || (fs - d_kl d <? d_ks d)); [discriminate|].
+    destruct ((fs <? d_as d) || ((fs - d_as d) / type_size (d_type d) <? d_al d)); [discriminate|].
+    destruct (parse_descs fs n (skipn 64 buf)) eqn:E3; try discriminate.
+    intros H. inversion H; subst. constructor; [apply Z.leb_gt in E0; exact E0 | eapply IHn; eauto].
+Qed.
+
+Definition bounds_t (fs : Z) (d : rdesc) : Prop := bounds fs d /\ d_type d < kas_num_types.
+
 Definition set_kl (d : rdesc) (v : Z) := mk_rdesc (d_type d) (d_ks d) v (d_as d) (d_al d).
 Definition set_al (d : rdesc) (v : Z) := mk_rdesc (d_type d) (d_ks d) (d_kl d) (d_as d) v.
 
@@ -531,7 +545,7 @@ Definition set_al (d : rdesc) (v : Z) := mk_rdesc (d_type d) (d_ks d) (d_kl d) (
 Lemma descriptor_field_rejected_b its pre it post (f : rdesc -> rdesc) y :
   items_ok its -> its = pre ++ it :: post ->
   (forall d, rdesc_ok d -> rdesc_ok (f d)) ->
-  (Forall (bounds (kw_fs its)) (altered_descs its pre it post f) ->
+  (Forall (bounds_t (kw_fs its)) (altered_descs its pre it post f) ->
    check_keys (kw_k its) (altered_descs its pre it post f) = None \/
    exists o, check_keys (kw_k its) (altered_descs its pre it post f) = Some o
              /\ (check_arrays o (altered_descs its pre it post f) = None \/
@@ -563,7 +577,9 @@ Proof.
     by (rewrite Hlen; unfold kw_n, zlen; rewrite Nat2Z.id; reflexivity).
   destruct (parse_descs_shape (kw_fs its) (length (altered_descs its pre it post f))
               (descs_bytes (altered_descs its pre it post f))) as [[ds' E]|[e E]]; rewrite E; [|eauto].
-  pose proof (parse_descs_ok_bounds _ _ _ _ E) as Hb.
+  assert (Hb : Forall (bounds_t (kw_fs its)) ds').
+  { pose proof (parse_descs_ok_bounds _ _ _ _ E) as Hb1. pose proof (parse_descs_ok_types _ _ _ _ E) as Hb2.
+    clear -Hb1 Hb2. induction Hb1; inversion Hb2; subst; constructor; [split; auto | auto]. }
   rewrite <- (app_nil_r (descs_bytes _)) in E. apply parse_descs_values in E; auto. subst ds'.
   change (koff0 (kw_n its)) with (kw_k its).
   destruct (Hchk Hb) as [-> | (o & -> & [-> | (o2 & -> & Ho2)])]; eauto.
@@ -611,7 +627,7 @@ Proof.
   - intros Hb. right. exists (kw_a its). split.
     + apply altered_keys_pass; auto; try (intros d; split; reflexivity).
     + unfold altered_descs in *. apply Forall_app in Hb as [_ Hb]. apply Forall_inv in Hb as Hbd.
-      destruct Hbd as (_ & _ & Hb3 & Hb4). cbn [set_al d_as d_al d_type] in Hb3, Hb4.
+      destruct Hbd as [(_ & _ & Hb3 & Hb4) _]. cbn [set_al d_as d_al d_type] in Hb3, Hb4.
       set (a := align8 (layout_end (kw_a its) pre)) in *.
       assert (Hts : 1 <= type_size (itype it) <= 8).
       { destruct Hok as (Hall & _). rewrite Hits in Hall. apply Forall_app in Hall as [_ Hall].
@@ -647,7 +663,7 @@ Proof.
   - intros d (H1 & H2 & H3 & H4 & H5). unfold rdesc_ok, set_kl. cbn. tauto.
   - intros Hb. unfold altered_descs in *.
     apply Forall_app in Hb as [_ Hb]. apply Forall_inv in Hb as Hbd.
-    destruct Hbd as (Hb1 & Hb2 & _). cbn [set_kl d_ks d_kl] in Hb1, Hb2.
+    destruct Hbd as [(Hb1 & Hb2 & _) _]. cbn [set_kl d_ks d_kl] in Hb1, Hb2.
     rewrite check_keys_app, Hck. cbn [check_keys set_kl d_ks d_kl]. rewrite Z.eqb_refl.
     rewrite (w64_small (kw_k its + keys_len pre + v)) by lia.
     destruct post as [|it2 r2].
@@ -682,4 +698,114 @@ Example array_len_rejected_ex :
 Proof.
   cbv zeta. eexists [], _, [_]. split; [vm_compute; reflexivity|]. split; [discriminate|]. vm_compute.
   split; [discriminate|]. split; reflexivity.
+Qed.
+
+(* ---- lazy mode (skip_tables / skip_reference_sequence) and truncation ---- *)
+Lemma blocks_length its : forall aoff, Forall item_ok its -> 0 <= aoff -> its <> [] ->
+  zlen (blocks (align8 aoff) its) = layout_end aoff its - align8 aoff.
+Proof.
+  induction its as [|it r IH]; intros aoff H Ha Hne; [congruence|].
+  pose proof (Forall_inv H) as Hit. pose proof (Forall_inv_tail H) as Hr.
+  pose proof (align8_spec aoff Ha) as [Hal _]. pose proof (isize_nonneg it Hit) as Hsz.
+  assert (Hd : zlen (idata it) = isize it) by (destruct Hit as (_ & _ & Hd & _); exact Hd).
+  cbn [blocks layout_end]. destruct r as [|it2 r2].
+  - cbn [blocks layout_end]. rewrite !app_nil_r. lia.
+  - rewrite !zlen_app, Hd. pose proof (align8_spec (align8 aoff + isize it) ltac:(lia)) as [Hal2 _].
+    rewrite zlen_zeros by lia. rewrite IH by (auto; try lia; discriminate). lia.
+Qed.
+
+Lemma last_map {A B} (f : A -> B) l da : l <> [] -> last (map f l) (f da) = f (last l da).
+Proof. induction l as [|x l IH]; [congruence|]. intros _. destruct l; [reflexivity|]. apply IH. discriminate. Qed.
+
+(* In lazy mode a truncated file is either rejected when it is opened, or it is opened and the
+   LAST array (non-empty; in a tskit file the required 36-byte uuid) cannot be read any more:
+   kastore_get on it reports a format error.  So a truncated tskit file never loads on the
+   skip_tables / skip_reference_sequence paths either. *)
+Theorem lazy_truncation its pre it p q :
+  items_ok its -> its = pre ++ [it] -> 0 < isize it -> kas_write its = p ++ q -> q <> [] ->
+  kas_open false p = Err (match p with [] => E_EOF | _ => E_FORMAT end)
+  \/ exists rs r, kas_open false p = Ok (rs ++ [r], []) /\ length rs = length pre
+                  /\ rtype r = itype it /\ rlen r = ilen it /\ rblock r = Err E_FORMAT.
+Proof.
+  intros Hok Hits Hsz Hw Hq.
+  destruct p as [|b0 p0]; [left; reflexivity|]. set (p := b0 :: p0) in *.
+  assert (Hpne : p <> []) by (unfold p; discriminate).
+  destruct (truncation_cases false its p q Hok Hw Hq Hpne) as [H|(_ & Hne & l3 & Hp & Hb)]; [left; exact H|].
+  right.
+  pose proof (kw_facts its Hok Hne) as (Hn & Hk & Ha & Hal & Hfs & Hlt & Hkeys).
+  assert (Hall : Forall item_ok its) by (destruct Hok; auto).
+  assert (Hopen : kas_open false p = Ok (lazy_items (kw_k its) (kw_keys its) p (layout (kw_k its) (kw_a its) its), [])).
+  { rewrite Hp at 1. rewrite (kas_open_prefix_any false) by auto. rewrite take_app. rewrite <- Hp. reflexivity. }
+  (* the length of what is there is below the end of the last array *)
+  assert (Hlen : zlen p < kw_fs its).
+  { pose proof (blocks_length its (kw_a its) Hall ltac:(lia) Hne) as Hbl. rewrite Hb, zlen_app in Hbl.
+    rewrite Hp, !zlen_app, kw_header_length, kw_descs_length, Hkeys. fold (kw_fs its) in Hbl.
+    assert (1 <= zlen q) by (destruct q; [congruence | rewrite zlen_cons; pose proof (zlen_nonneg q); lia]).
+    unfold kw_n in *. lia. }
+  rewrite <- (altered_descs_id its pre it [] Hits) in Hopen. unfold altered_descs in Hopen. cbn [layout] in Hopen.
+  unfold lazy_items in Hopen. rewrite map_app in Hopen. cbn [map d_al d_type d_as d_ks d_kl] in Hopen.
+  eexists _, _. split; [exact Hopen|]. split; [rewrite map_length, layout_length; reflexivity|].
+  split; [reflexivity|]. split; [reflexivity|]. cbn [rblock].
+  fold (isize it).
+  assert (Hfs2 : kw_fs its = align8 (layout_end (kw_a its) pre) + isize it).
+  { rewrite (kw_fs_split its pre it [] Hits). reflexivity. }
+  destruct (prefix_checks its pre it [] Hok Hits) as (_ & _ & _ & Ha1 & _).
+  rewrite w64_small by lia.
+  replace (isize it =? 0) with false by (symmetry; apply Z.eqb_neq; lia).
+  replace (zlen p <? align8 (layout_end (kw_a its) pre) + isize it) with true by (symmetry; apply Z.ltb_lt; lia).
+  reflexivity.
+Qed.
+
+Example lazy_truncation_ex :
+  (* on the 5188-byte file f0 the last item is the 36-byte uuid: cut anywhere inside it, the lazy
+     reader opens the store, the table layer then fails on the uuid *)
+  forallb (fun n => is_ok (kas_open false (firstn n f0)) && (load_verdict true false (firstn n f0) =? T_KAS)
+                    && (load_verdict false true (firstn n f0) =? T_KAS))
+          (map (fun i => Z.to_nat (5153 + Z.of_nat i)) (seq 0 35)) = true
+  /\ load_verdict true false f0 = V_LOADED.
+Proof. vm_compute. split; reflexivity. Qed.
+
+(* type byte: any other type whose element size moves the (aligned) end of the array is rejected
+   by the container (unknown types by the type-range check); same-size types pass the container
+   and are rejected by the table layer's column type check (differential), up to the one-entry
+   offset-column slack (finding F17) *)
+Definition set_type (d : rdesc) (t : Z) := mk_rdesc t (d_ks d) (d_kl d) (d_as d) (d_al d).
+
+Theorem type_rejected its pre it post t y :
+  items_ok its -> its = pre ++ it :: post -> kw_fs its + 8 <= two64 -> 0 <= t < 256 ->
+  (t < kas_num_types ->
+   let a := align8 (layout_end (kw_a its) pre) in
+   match post with
+   | [] => a + ilen it * type_size t <> a + isize it
+   | _ => align8 (a + ilen it * type_size t) <> align8 (a + isize it)
+   end) ->
+  exists e, kas_open true (kw_header its ++ descs_bytes (altered_descs its pre it post (fun d => set_type d t)) ++ y) = Err e.
+Proof.
+  intros Hok Hits Hbig Ht Hdiff. cbv zeta in Hdiff.
+  destruct (prefix_checks its pre it post Hok Hits) as (_ & Hca & Hk1 & Ha1 & Hge).
+  apply descriptor_field_rejected_b; auto.
+  - intros d (H1 & H2 & H3 & H4 & H5). unfold rdesc_ok, set_type. cbn. tauto.
+  - intros Hb. right. exists (kw_a its). split.
+    + apply altered_keys_pass; auto; try (intros d; split; reflexivity).
+    + unfold altered_descs in *. apply Forall_app in Hb as [_ Hb]. apply Forall_inv in Hb as Hbd.
+      destruct Hbd as [(_ & _ & Hb3 & Hb4) Hlt]. cbn [set_type d_as d_al d_type] in Hb3, Hb4, Hlt.
+      specialize (Hdiff Hlt).
+      set (a := align8 (layout_end (kw_a its) pre)) in *.
+      assert (Hts : 1 <= type_size t <= 8) by (apply type_size_pos; lia).
+      assert (Hil : 0 <= ilen it).
+      { destruct Hok as (Hall & _). rewrite Hits in Hall. apply Forall_app in Hall as [_ Hall].
+        apply Forall_inv in Hall. destruct Hall as (_ & Hl & _). exact Hl. }
+      assert (Hend : a + ilen it * type_size t <= kw_fs its).
+      { pose proof (Z.mul_div_le (kw_fs its - a) (type_size t) ltac:(lia)). nia. }
+      rewrite check_arrays_app, Hca. cbn [check_arrays set_type d_as d_al d_type]. fold a.
+      rewrite (w64_small a) by lia. rewrite Z.eqb_refl.
+      rewrite (w64_small (a + ilen it * type_size t)) by nia.
+      destruct post as [|it2 r2].
+      * right. cbn [layout check_arrays]. eexists. split; [reflexivity|].
+        rewrite (kw_fs_split its pre it [] Hits). cbn [layout_end]. fold a. exact Hdiff.
+      * left. cbn [layout check_arrays d_as].
+        pose proof (align8_spec (a + ilen it * type_size t) ltac:(nia)) as [Hx _].
+        rewrite w64_small by lia.
+        replace (align8 (a + isize it) =? align8 (a + ilen it * type_size t)) with false; [reflexivity|].
+        symmetry. apply Z.eqb_neq. intros E. apply Hdiff. symmetry. exact E.
 Qed.
